@@ -383,10 +383,10 @@ Fixpoint has_then (s : str) : bool :=
 Definition descr_of (s : sx) : list str :=
   match s with L (_ :: _ :: L [d] :: _) => match getZs d with Some x => [x] | None => [] end | _ => [] end.
 
-Definition file_class (grs : list grule) (descs : list str) (feats : list sx) : Z :=
-  if existsb (fun r => existsb (memc 125) (rule_strs r)) grs || existsb (memc 125) descs then 2
-  else if existsb (memc 123) descs then 6
-  else 0.
+(* classes 2 (a closing brace inside a string literal) and 6 (an opening brace inside a description string) were repaired as well: a rule
+   block ends at the first `}` OUTSIDE string literals and the attributes end at the first `{` outside string literals; no text of the
+   grammar is excused any more, except the method-call form (class 5, decided in [ok_sx]) *)
+Definition file_class (grs : list grule) (descs : list str) (feats : list sx) : Z := 0.
 
 (** verdict for a rule file: 1 = the parsed rules are exactly those written, in order; otherwise the number
     of the known-finding class the file belongs to, or 0 (violation) when it belongs to none *)
